@@ -104,6 +104,11 @@ def run(ctx, rep):
         ctor = K.init_field_ctor(ctx, K.CONN, fld)
         fresh = ctor is not None and (isinstance(ctor, (ast.Dict, ast.List, ast.Set)) or (
             isinstance(ctor, ast.Call) and not isinstance(ctor.func, ast.Subscript)))
+        if fld == "_config" and fresh:
+            # the configuration must be a *copy*: a view layered over the caller's dict or over the defaults (ChainMap, proxy types)
+            # writes through to an object other connections are built from
+            fresh = isinstance(ctor, ast.Call) and ((isinstance(ctor.func, ast.Attribute) and ctor.func.attr in ("copy",)) or
+                                                    A.call_name(ctor) in ("dict", "copy.copy", "copy.deepcopy"))
         shared_cls = fld in conn.attrs
         rep.ob("R07.2", "Connection.%s is a fresh per-connection object" % fld, fresh and not shared_cls,
                "bound in __init__ to `%s`" % A.src(ctor) if fresh and not shared_cls else
